@@ -2,6 +2,7 @@ package query
 
 import (
 	"context"
+	"math"
 	"strings"
 	"sync/atomic"
 
@@ -26,6 +27,9 @@ func FetchCursor(ctx context.Context, scope *ReferenceScope, name parser.Identif
 			}
 			number = int(i.(*value.Integer).Raw())
 			value.Discard(i)
+			if f := fetchNumberBeyondInteger(p); f != 0 {
+				number = f
+			}
 		}
 	}
 
@@ -47,6 +51,30 @@ func FetchCursor(ctx context.Context, scope *ReferenceScope, name parser.Identif
 		}
 	}
 	return true, nil
+}
+
+// fetchNumberBeyondInteger returns the largest or the smallest integer when the evaluated offset of
+// FETCH ABSOLUTE/RELATIVE is a float (or a string representing one) beyond the range of an integer, and 0 otherwise.
+// Such a float cannot be truncated to an integer (the result of the conversion is undefined, in practice the
+// smallest integer whatever the sign); the position it addresses is beyond the end of the view its sign points to.
+func fetchNumberBeyondInteger(p value.Primary) int {
+	if i := value.ToIntegerStrictly(p); !value.IsNull(i) {
+		value.Discard(i)
+		return 0
+	}
+	f := value.ToFloat(p)
+	if value.IsNull(f) {
+		return 0
+	}
+	raw := f.(*value.Float).Raw()
+	value.Discard(f)
+	switch {
+	case float64(math.MaxInt64) <= raw:
+		return math.MaxInt
+	case raw <= float64(math.MinInt64):
+		return math.MinInt
+	}
+	return 0
 }
 
 func DeclareView(ctx context.Context, scope *ReferenceScope, expr parser.ViewDeclaration) error {
